@@ -280,6 +280,48 @@ Proof.
     + intros p Hpp Hreg. apply Hrest; [lia|]. right. nia.
 Qed.
 
+(* ---- codes without buffers; the space test overflows (F-C16c) ---- *)
+Lemma pack_codes_spec inbuf incount t outbuf outsize pos :
+  len outbuf = outsize -> u64 (pack_bytes incount t) <= len inbuf ->
+  let '(rc, out', pos') := sc_pack inbuf incount t outbuf outsize pos in
+  let '(rc2, pos2, over) := sc_pack_codes incount t outsize pos in
+  rc = rc2 /\ pos' = pos2 /\ (over = true <-> out' = None).
+Proof.
+  intros Hl Hi. unfold sc_pack, sc_pack_codes, pack_copy.
+  destruct (pack_refuses pos (pack_bytes incount t) outsize).
+  - split; [reflexivity|]. split; [reflexivity|]. split; discriminate.
+  - split; [reflexivity|]. split; [reflexivity|].
+    set (n := u64 (pack_bytes incount t)) in *. pose proof (u64_range (pack_bytes incount t)) as Hr. fold n in Hr.
+    unfold memcpy_at. replace ((0 <=? n) && (0 <=? 0) && (0 + n <=? len inbuf))%bool with true
+      by (symmetry; rewrite !andb_true_iff; repeat split; apply Z.leb_le; lia).
+    unfold put. rewrite len_take, len_drop. replace (Z.min (Z.max n 0) (Z.max 0 (len inbuf - Z.max 0 0))) with n by lia.
+    rewrite Hl. destruct ((0 <=? pos) && (pos + n <=? outsize))%bool; cbn [negb]; split; try discriminate; reflexivity.
+Qed.
+
+(* the statement of pack_spec without `pos + incount * size < 2^31` is false of the code: a legal position in a buffer of
+   INT_MAX bytes and a request of 2 bytes that does not fit are ACCEPTED (position + size wraps), the copy leaves
+   the buffer and the position becomes negative *)
+Theorem pack_overflow_refuted :
+  let t := h_MPI_BYTE in let incount := 2 in let outsize := 2 ^ 31 - 1 in let pos := 2 ^ 31 - 2 in
+  valid_dt t /\ 0 <= incount /\ 0 <= pos <= outsize /\ outsize < 2 ^ 31 /\ incount * type_size t < 2 ^ 31 /\
+  outsize < pos + incount * type_size t /\
+  forall inbuf outbuf, len outbuf = outsize -> incount * extent t <= len inbuf ->
+    let '(rc, out', pos') := sc_pack inbuf incount t outbuf outsize pos in
+    rc = SUCCESS /\ out' = None /\ pos' = - 2 ^ 31.
+Proof.
+  cbv zeta. split; [eexists; vm_compute; reflexivity|].
+  assert (Hs : type_size h_MPI_BYTE = 1) by (vm_compute; reflexivity). rewrite Hs.
+  change (2 ^ 31) with 2147483648. split; [lia|]. split; [lia|]. split; [lia|]. split; [lia|]. split; [lia|].
+  change 2147483648 with (2 ^ 31). intros inbuf outbuf Hl Hi.
+  pose proof (pack_codes_spec inbuf 2 h_MPI_BYTE outbuf (2 ^ 31 - 1) (2 ^ 31 - 2) Hl) as H.
+  assert (Hn : u64 (pack_bytes 2 h_MPI_BYTE) = 2) by (vm_compute; reflexivity).
+  assert (He : extent h_MPI_BYTE = 1) by (vm_compute; reflexivity). rewrite He in Hi.
+  specialize (H ltac:(rewrite Hn; lia)).
+  destruct (sc_pack inbuf 2 h_MPI_BYTE outbuf (2 ^ 31 - 1) (2 ^ 31 - 2)) as [[rc out'] pos'].
+  assert (Hc : sc_pack_codes 2 h_MPI_BYTE (2 ^ 31 - 1) (2 ^ 31 - 2) = (SUCCESS, - 2 ^ 31, true)) by (vm_compute; reflexivity).
+  rewrite Hc in H. destruct H as (H1 & H2 & H3). split; [assumption|]. split; [apply H3; reflexivity|assumption].
+Qed.
+
 (* ---- completion calls ---- *)
 Lemma all_null_forall reqs : Forall (fun r => r = REQUEST_NULL) reqs -> all_null reqs = true.
 Proof.
